@@ -48,7 +48,7 @@ CHECKS = {
  "C04": dict(
    level="model_checking", ref="DESIGN.md section 5, C04",
    text="Same layouts x values from spec/ThriftWire.tla (ids in any order, gaps over 15, ranges over 64, required / pointer options, every type incl. sets and maps): Marshal/Unmarshal round trip under the three protocol variants, by value and by pointer, lists stretched over the compact short-form boundary, and Reset/SetStrict histories of one Encoder/Decoder compared with fresh ones.",
-   note="Round trip and Reset equivalence are black-box relations; the specification supplies the programs (layouts) and inputs. union/enum options are not generated.",
+   note="Round trip and Reset equivalence are black-box relations; the specification supplies the programs (layouts) and inputs, incl. the enum option on 8/16/32/64-bit integer fields and union structs (an interface field tagged union: at most one field set, the interface field points at it after decoding); a Marshal of a union with two fields set is not exercised.",
    technique="TLC enumeration of programs/inputs from the TLA+ spec, spec-to-code replay of round trips and Reset histories"),
  "C08": dict(
    level="model_checking", ref="DESIGN.md section 5, C08",
